@@ -2,8 +2,9 @@
 
     [edit_request c hs] is what [HttpContext::on_request_headers] makes of the
     header list [hs] (for every context [c] and every client header list);
-    [id_ok c] says the correlation header is configured with a name of its own
-    (not one of the reserved forwarding names); [ctx_clean c] is the alphabet of
+    [valid_id_name (c_idname c) = true] says the correlation header name passes
+    [validate_sozu_id_header] (command/src/state.rs): it is not the name of a field the
+    proxy owns or interprets (the reserved list is compared with the source on every run); [ctx_clean c] is the alphabet of
     the [Display] oracle for addresses and of the ULID rendering. *)
 From Coq Require Import List NArith Bool String.
 From SV Require Import C13.Model C13.Proofs.
@@ -12,9 +13,9 @@ Open Scope N_scope.
 
 (** 1. Fidelity: every field the proxy does not own reaches the backend with its
     value, in the original order and multiplicity (list equality). *)
-Theorem fidelity : forall c hs, id_ok c ->
+Theorem fidelity : forall c hs, valid_id_name (c_idname c) = true ->
   filter (not_owned c) (edit_request c hs) = filter (not_owned c) hs.
-Proof. intros c hs H. exact (fidelity_l c H hs). Qed.
+Proof. intros c hs H. apply valid_id_name_id_ok in H. exact (fidelity_l c H hs). Qed.
 
 (** … and with a per-frontend request policy [r] (rewrite host / path, header inject /
     delete) applied on top: the backend sees the client's request plus the
@@ -23,10 +24,10 @@ Proof. intros c hs H. exact (fidelity_l c H hs). Qed.
     what the policy does is exactly [apply_rw] (deletions by name, then the
     configured insertions, X-Forwarded-Host when the host is rewritten; the Host
     line itself is the rewritten authority, never a second field). *)
-Theorem fidelity_with_policy : forall c r orig hs, id_ok c ->
+Theorem fidelity_with_policy : forall c r orig hs, valid_id_name (c_idname c) = true ->
   filter (fun h => not_owned c h && negb (rw_touches r h)) (apply_rw r orig (edit_request c hs)) =
   filter (fun h => not_owned c h && negb (rw_touches r h)) hs.
-Proof. intros c r orig hs H. exact (fidelity_with_policy_l c r orig hs H). Qed.
+Proof. intros c r orig hs H. apply valid_id_name_id_ok in H. exact (fidelity_with_policy_l c r orig hs H). Qed.
 
 Theorem policy_leaves_unnamed_fields : forall r orig hs,
   filter (fun h => negb (rw_touches r h)) (apply_rw r orig hs) = filter (fun h => negb (rw_touches r h)) hs.
@@ -43,16 +44,16 @@ Theorem cookies_fidelity : forall c jar,
 Proof. intros c jar. split; [apply cookies_l|apply cookies_no_sticky]. Qed.
 
 (** client-supplied X-Forwarded-Proto / -Port are kept; the listener's are added only when absent *)
-Theorem proto_port_when_absent : forall c hs, id_ok c ->
+Theorem proto_port_when_absent : forall c hs, valid_id_name (c_idname c) = true ->
   filter (is_kind c KProto) (edit_request c hs) =
     filter (is_kind c KProto) hs ++ (if has c KProto hs then [] else [(n_xproto, proto c)]) /\
   filter (is_kind c KPort) (edit_request c hs) =
     filter (is_kind c KPort) hs ++ (if has c KPort hs then [] else [(n_xport, dec (snd (c_pub c)))]).
-Proof. intros c hs H. split; [exact (proto_l c H hs)|exact (port_l c H hs)]. Qed.
+Proof. intros c hs H. apply valid_id_name_id_ok in H. split; [exact (proto_l c H hs)|exact (port_l c H hs)]. Qed.
 
 (** 2. The whole client-attested X-Forwarded-For / Forwarded chain is kept; only
     the LAST header is extended, by exactly sozu's element; one is created when absent. *)
-Theorem forwarding_chain : forall c hs peer, id_ok c -> c_peer c = Some peer ->
+Theorem forwarding_chain : forall c hs peer, valid_id_name (c_idname c) = true -> c_peer c = Some peer ->
   filter (is_kind c KXff) (edit_request c hs) =
     append_last (is_kind c KXff) (xff_suffix peer) (filter (is_kind c KXff) hs) ++
     (if has c KXff hs then [] else [(n_xff, ip_text (fst peer))]) /\
@@ -60,7 +61,7 @@ Theorem forwarding_chain : forall c hs peer, id_ok c -> c_peer c = Some peer ->
     append_last (is_kind c KFwd) (fwd_suffix c peer) (filter (is_kind c KFwd) hs) ++
     (if has c KFwd hs then [] else [(n_fwd, fwd_element c peer)]).
 Proof.
-  intros c hs peer H Hp. split.
+  intros c hs peer H Hp. apply valid_id_name_id_ok in H. split.
   - rewrite (xff_l c H hs), Hp. reflexivity.
   - rewrite (fwd_l c H hs), Hp. reflexivity.
 Qed.
@@ -68,7 +69,7 @@ Qed.
 (** … hence the last element of the last X-Forwarded-For is the peer, the last
     element of the last Forwarded is [proto=..;for="peer:port";by=public], and
     X-Real-IP is the peer (client copies gone when eliding). *)
-Theorem xff_truthful : forall c hs peer, id_ok c -> c_peer c = Some peer ->
+Theorem xff_truthful : forall c hs peer, valid_id_name (c_idname c) = true -> c_peer c = Some peer ->
   (exists v, last_val (is_kind c KXff) (edit_request c hs) = Some v /\
              ends_with_elem v (ip_text (fst peer))) /\
   (exists v, last_val (is_kind c KFwd) (edit_request c hs) = Some v /\
@@ -77,7 +78,7 @@ Theorem xff_truthful : forall c hs peer, id_ok c -> c_peer c = Some peer ->
     (if c_elide c then [] else filter is_xrip hs) ++
     (if c_send c then [(n_xrip, ip_text (fst peer))] else []).
 Proof.
-  intros c hs peer H Hp. split; [exact (last_xff c H hs peer Hp)|]. split; [exact (last_fwd c H hs peer Hp)|].
+  intros c hs peer H Hp. apply valid_id_name_id_ok in H. split; [exact (last_xff c H hs peer Hp)|]. split; [exact (last_fwd c H hs peer Hp)|].
   rewrite (xrip_l c H hs), Hp. reflexivity.
 Qed.
 
@@ -92,21 +93,21 @@ Proof.
 Qed.
 
 (** 3. Exactly one correlation header (carrying the request id) and exactly one X-Request-Id. *)
-Theorem exactly_one_id : forall c hs, id_ok c ->
+Theorem exactly_one_id : forall c hs, valid_id_name (c_idname c) = true ->
   filter (is_kind c KId) (edit_request c hs) = [(c_idname c, c_id c)] /\
   List.length (filter (is_kind c KXrid) (edit_request c hs)) = 1%nat /\
   filter (is_kind c KXrid) (edit_request c hs) =
     firstn 1 (filter (is_kind c KXrid) hs) ++ (if has c KXrid hs then [] else [(n_xrid, c_id c)]).
 Proof.
-  intros c hs H. split; [exact (id_l c H hs)|]. split; [exact (one_request_id c H hs)|exact (xrid_l c H hs)].
+  intros c hs H. apply valid_id_name_id_ok in H. split; [exact (id_l c H hs)|]. split; [exact (one_request_id c H hs)|exact (xrid_l c H hs)].
 Qed.
 
 (** Connection: rewritten to close only when the session is closing *)
-Theorem connection_header : forall c hs, id_ok c ->
+Theorem connection_header : forall c hs, valid_id_name (c_idname c) = true ->
   filter (is_kind c KConn) (edit_request c hs) =
     map (set_close c) (filter (is_kind c KConn) hs) ++
     (if negb (has c KConn hs) && c_closing c then [(n_Connection, v_close)] else []).
-Proof. intros c hs H. exact (conn_l c H hs). Qed.
+Proof. intros c hs H. apply valid_id_name_id_ok in H. exact (conn_l c H hs). Qed.
 
 (** 4. Responses: the backend's fields in order (only a Connection value may be
     replaced by close, and only when closing) plus the documented additions. *)
@@ -198,8 +199,9 @@ Definition ex_req : list header :=
     (B "x-real-ip", B "6.6.6.6"); (B "X-Request-Id", B "r1"); (B "x-request-id", B "r2");
     (B "Accept", B "again"); (B "forwarded", B "for=6.6.6.6") ].
 
-Example id_ok_nonvacuous : id_ok ex_ctx.
-Proof. split; reflexivity. Qed.
+Example id_name_nonvacuous :
+  valid_id_name (c_idname ex_ctx) = true /\ valid_id_name (B "X-Request-Id") = false /\ valid_id_name (B "HOST") = false.
+Proof. vm_compute. repeat split; reflexivity. Qed.
 
 Example ctx_clean_nonvacuous : ctx_clean ex_ctx.
 Proof. split; [intros p H; injection H as <-; reflexivity|split; reflexivity]. Qed.
